@@ -26,7 +26,7 @@ ASSUMPTIONS = ["listed words start and end with a letter outside a-f and contain
 DECIDING = ["word_searches", "planted_tokens_checked"]
 
 NONHEX = "ghijklmnopqrstuvwxyz"
-FIXED_WORDS = ["sea", "seattle", "chelsea", "zurich", "gotham", "x.y", "zz+w", "r|s", "kiwi", "ox", "intentionet",
+FIXED_WORDS = ["net", "conan", "removed", "sea", "seattle", "chelsea", "zurich", "gotham", "x.y", "zz+w", "r|s", "kiwi", "ox", "intentionet",
                "north", "northwest", "west", "g0th", "gro\xdfmann", "m\xfcnchen", "z\xfcrich", "stra\xdfe-gw", "\u0142\xf3d\u017a-pop", "m(x)z", "p[q]r", "t*t", "w?w", "h^h", "k$k", "j\\j", "y{2}z"]
 PREFIXES = ["", "", "", "(", "rtr-", "01", "\"", "[", "10.", "_", "é", "x", "<", "un"]
 SUFFIXES = ["", "", "", ")", "-gw", "02", "\"", "]", ".1", "_", ";", ":", ",", "z", "s"]
@@ -71,6 +71,8 @@ def cases(ctx):
     for i in range(ctx.per_shard(ctx.pick(12, 600))):
         yield {"kind": "words", "wseed": rng.getrandbits(32), "salt": rng.choice(["saltForTest", "x", "w1"]),
                "mode": "file", "children": ctx.pick(4, 8), "force_overlap": True}
+    for i in range(ctx.per_shard(ctx.pick(8, 200))):
+        yield {"kind": "order", "wseed": rng.getrandbits(32), "salt": "s%d" % rng.getrandbits(30), "n": ctx.pick(7000, 12000)}
 
 
 def build(case):
@@ -201,6 +203,8 @@ def build(case):
                     # the same reserved word seen earlier as the plaintext of a $9$ secret
                     pwd_lines.append("pre-shared-key " + decoders.j9_encode(w, rng.choice(decoders.J9_ALPHABET), rng))
                 pwd_lines.append("password " + w)
+        # an ordinary secret: what the secret stage writes in its place is output text like any other
+        pwd_lines.append("enable password Zq9Vm2Lk8Rt")
     return words, user_res, reserved_exact, reserved_lower, lines, pwd_lines
 
 
@@ -272,7 +276,7 @@ def check_output(ctx, case, words, reserved_lower, ln, got, salt, tag):
 
 
 def check_case(ctx, case):
-    if case["kind"] != "words":
+    if case["kind"] not in ("words", "order"):
         raise HarnessError("unknown kind")
     nc = load.nc()
     saved = set(nc.rw.default_reserved_words)
@@ -286,7 +290,44 @@ def check_case(ctx, case):
             cur.update(saved)
 
 
+def _order(ctx, case, nc):
+    """Thousands of DIFFERENT spellings (letter case) of one listed word in one run, forwards and backwards: what each
+    spelling is replaced with may depend on the salt and on that spelling - not on which other spellings came earlier
+    (with that many texts some pseudonyms coincide by chance; that must not push a later one elsewhere)."""
+    rng = random.Random(case["wseed"])
+    word = "".join(rng.choice(NONHEX) for _ in range(14))
+    seen = set()
+    while len(seen) < case["n"]:
+        seen.add("".join(c.upper() if rng.random() < 0.5 else c for c in word))
+    variants = sorted(seen)
+    rng.shuffle(variants)
+    maps = []
+    for order in (variants, variants[::-1]):
+        an = nc.sir.SensitiveWordAnonymizer([word], case["salt"], set(nc.rw.default_reserved_words))
+        m = {}
+        for i in range(0, len(order), 10):
+            chunk = order[i:i + 10]
+            got = an.anonymize(" ".join(chunk)).split()
+            ctx.ev()
+            if len(got) != len(chunk):
+                ctx.violation(case, "token-count-changed", "%r -> %r" % (" ".join(chunk), got))
+                return
+            m.update(zip(chunk, got))
+        maps.append(m)
+    ctx.count("word_searches", len(variants))
+    ctx.count("order_independence_comparisons", len(variants))
+    ctx.count("coinciding_pseudonyms_seen", len(variants) - len(set(maps[0].values())))
+    for v in variants:
+        if maps[0][v] != maps[1][v]:
+            ctx.violation(case, "pseudonym-depends-on-earlier-words", "spelling %r of the listed word %r becomes %r in one order of the text and %r in the reverse order (salt %r)"
+                          % (v, word, maps[0][v], maps[1][v], case["salt"]))
+            return
+    ctx.distinct(("order", case["wseed"]))
+
+
 def _check(ctx, case, nc):
+    if case.get("kind") == "order":
+        return _order(ctx, case, nc)
     words, user_res, reserved_exact, reserved_lower, lines, pwd_lines = build(case)
     salt = case["salt"]
     mode = case["mode"]
@@ -309,6 +350,15 @@ def _check(ctx, case, nc):
         for j, p in enumerate(pwd_lines):
             g = got_lines[len(lines) + j]
             if p.startswith("pre-shared-key "):
+                continue
+            if p == "enable password Zq9Vm2Lk8Rt":
+                ctx.count("pseudonym_tokens_searched")
+                tok = g.split()[-1] if g.split() else ""
+                hit = next((w for w in words if w.lower() in tok.lower()), None)
+                if hit is not None and tok.lower() not in reserved_lower:
+                    ctx.violation(case, "word-survives:inside-secret-placeholder",
+                                  "listed word %r survives in the token %r written for a removed secret (line %r -> %r)" % (hit, tok, p, g))
+                    return
                 continue
             ctx.count("reserved_secret_values_checked")
             if g != p:
